@@ -41,6 +41,8 @@ def table():
             rows.append(('al.jonesr %s %d' % (op, k), 8 + (k == 8), 'jones-real-' + ('distinct' if k == 8 else 'part')))
         for k in range(5):
             rows.append(('al.spinors %s %d' % (op, k), 4 + (k == 4), 'spinor-scalar'))
+    for k in range(3):
+        rows.append(('al.spinorc %d' % k, 4 + 2 * (k == 2), 'spinor-complex-' + ('distinct' if k == 2 else 'component')))
     for op in ('add', 'sub'):
         rows.append(('al.stokesvec %s same' % op, 4, 'stokes-vec-same'))
         rows.append(('al.stokesvec %s distinct' % op, 8, 'stokes-vec-distinct'))
